@@ -214,6 +214,42 @@ quiet('C03', 'zeros-as-one-buffer', ('src/Header.cpp', '''    for (int i=0; i<22
         f.write(reinterpret_cast<const char*>(&_emptyBlock4), 1*ezc3d::DATA_TYPE::WORD);''', '''    for (int i=0; i<11; ++i)
         f.write(reinterpret_cast<const char*>(&_emptyBlock4), 2*ezc3d::DATA_TYPE::WORD);'''))
 
+# ---- round-2 rules
+GATHER_OLD = """    for (size_t i = 0; i < nbSubframes(); ++i){
+        subframe(i).write(f);
+    }"""
+GATHER = """    std::vector<float> values;
+    for (const ezc3d::DataNS::AnalogsNS::SubFrame& sf : _subframe)
+        for (const ezc3d::DataNS::AnalogsNS::Channel& c : sf.channels())
+            values.push_back(c.data());
+    if (!values.empty())
+        f.write(reinterpret_cast<const char*>(values.data()), static_cast<std::streamsize>(%s));"""
+for pid in ('C03', 'C12', 'C13', 'C14'):
+    quiet(pid, 'gather-write-exact', ('src/Analogs.cpp', GATHER_OLD, GATHER % 'values.size() * ezc3d::DATA_TYPE::FLOAT'))
+for pid in ('C13', 'C14'):
+    fire(pid, 'gather-write-fixed-product', ('src/Analogs.cpp', GATHER_OLD, GATHER % 'nbSubframes() * subframe(0).nbChannels() * ezc3d::DATA_TYPE::FLOAT'))
+NAN_OLD = """    f.write(reinterpret_cast<const char*>(&_data[0]), ezc3d::DATA_TYPE::FLOAT);"""
+for pid in ('C03', 'C12', 'C01'):
+    fire(pid, 'point-alt-path', ('src/Point.cpp', NAN_OLD, """    if (_data[3] < 0){
+        const float invalid[4] = {0, 0, 0, -1};
+        f.write(reinterpret_cast<const char*>(invalid), 4*ezc3d::DATA_TYPE::FLOAT);
+        return;
+    }
+""" + NAN_OLD))
+GW = "    f.write(ezc3d::toUpper(name()).c_str(), nCharName*ezc3d::DATA_TYPE::BYTE);"
+for pid in ('C13', 'C14'):
+    fire(pid, 'c-str-of-temporary', ('src/Group.cpp', GW, "    const char* up(ezc3d::toUpper(name()).c_str());\n    f.write(up, nCharName*ezc3d::DATA_TYPE::BYTE);"))
+    quiet(pid, 'c-str-of-named-copy', ('src/Group.cpp', GW, "    const std::string upName(ezc3d::toUpper(name()));\n    const char* up(upName.c_str());\n    f.write(up, nCharName*ezc3d::DATA_TYPE::BYTE);"))
+SETL = "        grpPoint.parameter_nonConst(idxLabels).set(labels);"
+fire('C13', 'stale-reference-after-growth', (W, SETL, """        ezc3d::ParametersNS::GroupNS::Parameter& lab(grpPoint.parameter_nonConst(idxLabels));
+        { ezc3d::ParametersNS::GroupNS::Parameter extra("EXTRA"); extra.set(std::vector<int>()); grpPoint.parameter(extra); }
+        lab.set(labels);"""))
+quiet('C13', 'reference-no-growth', (W, SETL, """        ezc3d::ParametersNS::GroupNS::Parameter& lab(grpPoint.parameter_nonConst(idxLabels));
+        lab.set(labels);"""))
+fire('C17', 'overstrict-guard', ('src/Parameter.cpp', "    int nCharName(static_cast<int>(name().size()));", """    if (name().size() > 100)
+        throw std::range_error("name too long");
+    int nCharName(static_cast<int>(name().size()));"""))
+
 def main():
     made = 0
     skipped = []
